@@ -26,6 +26,7 @@ pub fn plan() -> Plan {
         soft_s: (28, 600),
         exhaustive: None,
         min_evaluations: 200,
+        extra: None,
     }
 }
 
